@@ -47,6 +47,7 @@ func init() {
 			zs := zooms(tier)
 			dvs := []int64{0, 1, -1, 1 << 40, -(1 << 40)}
 			return []engine.Phase{
+				respellNeighbourPhase("C07", tier),
 				{
 					Name: "shift-vs-model", ShardDepth: 2, Bounds: engine.Bounds{EnvDev: 0, InputDev: -1},
 					Rule: "full product h in zooms x v in {0,h,35} x (x,y) in HIdx(h)^2 x f in VIdxSmall(v) x (dx,dy) in offsets(h)^2 x dv in 9 values (0, +-1, +-2^40 and the four shifts that land on or next to the int64 extremes); non-trivial = distinct (h,x,y,dx,dy) whose shift wraps on at least one axis",
